@@ -25,7 +25,7 @@ from ..gen.programs import Cfg, ProgGen
 
 MODULES = ["ESV.Props.C16"]
 THEOREMS = [
-    "ESV.C16.lexer_total", "ESV.C16.token_alone", "ESV.C16.skip_insertion", "ESV.C16.safe_boundary_suffices",
+    "ESV.C16.lexer_total", "ESV.C16.lex_drops_skip_tokens", "ESV.C16.token_alone", "ESV.C16.skip_insertion", "ESV.C16.safe_boundary_suffices",
     "ESV.C16.separator_invisible", "ESV.C16.trailing_comment_invisible", "ESV.C16.render_lex",
     "ESV.C16.layout_irrelevant_tokens", "ESV.C16.needs_sep_sound", "ESV.C16.line_joining_swallows_form_feed",
     "ESV.C16.boundary_examples", "ESV.C16.int_spelling_irrelevant", "ESV.C16.int_zero_spellings",
